@@ -66,7 +66,7 @@ ReqsBy(b) == {k \in Names : rq[b][k] # Nil}
 \* (structs: the names declared through tagged struct fields, one per field, in any order; they are part of `declared`)
 NoCfg == [declared |-> {}, allowLookup |-> FALSE, expiry |-> 0, hasCache |-> FALSE, fileClient |-> FALSE, auto |-> FALSE, structs |-> <<>>]
 StructNames == {cfg.structs[i] : i \in DOMAIN cfg.structs}
-NoIni == [tried |-> {}, missing |-> 0, from |-> 0, wake |-> Nil, deadline |-> Nil, flush |-> FALSE]
+NoIni == [tried |-> {}, missing |-> 0, from |-> 0, wake |-> Nil, deadline |-> Nil, flush |-> FALSE, got |-> {}]
 \* Between rounds of construction the store pauses: for a positive time and "at most a few seconds" (the code doubles
 \* from 1 ms to 4096 ms; the property fixes only the bound, so does the specification).
 MaxPause == 5000
@@ -158,8 +158,9 @@ InitResp(n, forceErr) ==
           /\ UNCHANGED <<m, phase, cache, hist>>
      ELSE /\ m' = [m EXCEPT ![n] = [ver |-> a.v, la |-> Sec(now), declared |-> TRUE]]
           /\ hist' = Installed(Served(n, a.v), n, a.v)
+          /\ ini' = [ini EXCEPT !.got = @ \cup {n}]
           /\ out' = Event("resp", [name |-> n, res |-> "val", ver |-> a.v, ret |-> "none", force |-> forceErr])
-          /\ UNCHANGED <<ini, phase, cache>>
+          /\ UNCHANGED <<phase, cache>>
   /\ UNCHANGED <<cfg, svc, handles, closed, poll, lk, call, now>>
 
 \* a request of a construction that has already given up comes back: nothing happens
@@ -170,26 +171,32 @@ InitStray(n) ==
   /\ UNCHANGED <<cfg, svc, m, handles, cache, phase, closed, ini, poll, lk, call, now, hist>>
 
 \* end of a round: done, or (file client) fail, or pause (a positive time, at most MaxPause, never past the caller's deadline)
-InitRoundEnd ==
+\* rs: the values obtained in this round are put into the store when they arrive (the pinned code; rs = FALSE) or together
+\* when the round is over (rs = TRUE) -- their first access stamp is the moment they were put in, either is fine
+InitRoundEndR(rs) ==
   /\ phase = "init" /\ ini.wake = Nil /\ Stubs(m) \subseteq ini.tried
   /\ ReqsBy("init") = {}
-  /\ IF Stubs(m) = {}
+  /\ (rs => ini.got # {})
+  /\ LET mr == [n \in Names |-> IF rs /\ n \in ini.got /\ IsRec(m[n]) THEN [m[n] EXCEPT !.la = Sec(now)] ELSE m[n]] IN
+     IF Stubs(m) = {}
      THEN /\ phase' = "running" /\ ini' = NoIni
-          /\ cache' = IF ini.flush THEN Flush(m) ELSE cache
+          /\ cache' = IF ini.flush THEN Flush(mr) ELSE cache
           \* after the flush the tagged struct fields are filled: one read of the secret per field (stamp, metric)
-          /\ m' = [n \in Names |-> IF n \in StructNames /\ IsRec(m[n]) THEN [m[n] EXCEPT !.la = Sec(now)] ELSE m[n]]
+          /\ m' = [n \in Names |-> IF n \in StructNames /\ IsRec(mr[n]) THEN [mr[n] EXCEPT !.la = Sec(now)] ELSE mr[n]]
           /\ hist' = [hist EXCEPT !.fetches = @ + Len(cfg.structs)]
           /\ out' = Event("ret", [call |-> "newstore", res |-> "ok", flushed |-> (ini.flush /\ Flushes)])
      ELSE IF cfg.fileClient
      THEN /\ phase' = "failed" /\ ini' = NoIni /\ UNCHANGED <<cache, m, hist>>
           /\ out' = Event("ret", [call |-> "newstore", res |-> "err", flushed |-> FALSE])
-     ELSE /\ ini' = [ini EXCEPT !.tried = {}, !.missing = 0,
+     ELSE /\ ini' = [ini EXCEPT !.tried = {}, !.missing = 0, !.got = {},
                                 !.from = now,
                                 !.wake = IF InitCtxDone THEN now ELSE       \* the LATEST moment the pause may end
                                          (IF ini.deadline # Nil /\ ini.deadline < now + MaxPause THEN ini.deadline ELSE now + MaxPause)]
+          /\ m' = mr
           /\ out' = Event("sleep", [until |-> ini'.wake])
-          /\ UNCHANGED <<phase, cache, m, hist>>
+          /\ UNCHANGED <<phase, cache, hist>>
   /\ UNCHANGED <<cfg, svc, handles, closed, poll, lk, rq, call, now>>
+InitRoundEnd == \E rs \in BOOLEAN : InitRoundEndR(rs)
 
 InitWake ==
   /\ phase = "init" /\ ini.wake # Nil /\ (now >= ini.wake \/ now > ini.from)     \* after a positive pause, at the latest at ini.wake
@@ -263,22 +270,26 @@ ApplyTo(mm) ==
      ELSE IF poll.upd[n] = Del THEN (IF n \in handles THEN mm[n] ELSE Nil)    \* a referenced secret is never dropped
      ELSE IF IsRec(mm[n]) THEN [mm[n] EXCEPT !.ver = poll.upd[n]] ELSE mm[n]]
 
-\* end of the round: nothing applied if any request failed; otherwise install, drop, flush; all waiters return
-PollFinish ==
+\* end of the round: nothing applied if any request failed; otherwise install, drop, flush; all waiters return.
+\* xf: the cache is rewritten although the round installed nothing (allowed, see ExtraFlush); a failing cache write is then
+\* reported just as it is after an installing round
+PollFinishR(xf) ==
   /\ poll # Nil /\ poll.todo = {} /\ NoPollReq
+  /\ (xf => ~poll.failed /\ ~HasUpd /\ Flushes)
   /\ IF poll.failed
      THEN /\ UNCHANGED <<m, cache>>
           /\ hist' = [hist EXCEPT !.pollErrs = @ + 1]                             \* metric: polls that failed
           /\ out' = Event("pollend", [res |-> "err", flushed |-> FALSE, waiters |-> poll.waiters])
      ELSE /\ m' = ApplyTo(m)
-          /\ cache' = IF HasUpd THEN Flush(m') ELSE cache
+          /\ cache' = IF HasUpd \/ xf THEN Flush(m') ELSE cache
           /\ hist' = [hist EXCEPT !.inst = [n \in Names |->
                          IF poll.upd[n] \notin {Nil, Del} /\ IsRec(m[n]) THEN Append(hist.inst[n], poll.upd[n]) ELSE hist.inst[n]]]
-          /\ out' = Event("pollend", [res |-> (IF HasUpd /\ Flushes /\ cache.wfail THEN "err" ELSE "ok"),
-                                      flushed |-> (HasUpd /\ Flushes), waiters |-> poll.waiters])
+          /\ out' = Event("pollend", [res |-> (IF (HasUpd \/ xf) /\ Flushes /\ cache.wfail THEN "err" ELSE "ok"),
+                                      flushed |-> ((HasUpd \/ xf) /\ Flushes), waiters |-> poll.waiters])
   /\ poll' = Nil
   /\ call' = [c \in Callers |-> IF c \in poll.waiters THEN Nil ELSE call[c]]
   /\ UNCHANGED <<cfg, svc, handles, phase, closed, ini, lk, rq, now>>
+PollFinish == \E xf \in BOOLEAN : PollFinishR(xf)
 
 \* C13 says when the cache MUST be rewritten (after the initial fetch, a lookup, a poll that installed something, at
 \* shutdown); an implementation may also rewrite it at other moments -- always as one complete document of its current state
